@@ -75,4 +75,7 @@ def component(pred_name, shared):
     return c
 
 
-COMPONENTS = [component("c18_nagle_ok", True), component("c18_pre_monitor", False)]
+# all five predicates are THEOREMS of every model step / trace (Props/C18.v ..._every_step / _every_trace); one pass evaluates them
+COMPONENTS = [component("c18_nagle_ok+c18_off_all_segmented_ok+c18_drain_sends_ok+c18_buffered_segmented_ok+c18_pre_ok", True),
+              component("c18_pre_monitor", False)]
+COMPONENTS[0]["name"] = "vsock_c18_nagle_ok"
